@@ -312,9 +312,8 @@ func (node *Node) ProcessBlock(ctx context.Context, block wire.Block) error {
 		inUnconfirmed, unconfirmed = removeHash(*txid, unconfirmed)
 
 		// Remove from mempool
-		inMemPool := false
 		if node.state.IsReady() {
-			inMemPool = node.memPool.RemoveTransaction(*txid)
+			node.memPool.RemoveTransaction(*txid)
 		}
 
 		// Check for transactions in the mempool with conflicting inputs (double spends). They are
@@ -361,8 +360,9 @@ func (node *Node) ProcessBlock(ctx context.Context, block wire.Block) error {
 			txsIsNew = append(txsIsNew, false)
 			txsIsSafe = append(txsIsSafe, true)
 
-		} else if !inMemPool {
-			// Not seen yet
+		} else {
+			// Not seen yet, or seen when it was not relevant. The subscriptions can have changed
+			// since then, so being in the mempool doesn't mean it can be skipped.
 			if node.IsRelevant(ctx, tx) {
 				// Add to txs for block
 				if _, _, err := node.txs.Add(ctx, *txid, true, true, height); err != nil {
